@@ -64,6 +64,9 @@ func runC14(r *fw.Run, p *fw.Program) {
 	c14Radix(cx)
 	c14Regex(cx)
 	c14JQErr(cx)
+	c14Feed(cx)
+	c14Flow(cx)
+	c14JQLit(cx)
 }
 
 // ---------------------------------------------------------------------------
@@ -854,6 +857,30 @@ func c14NilChecked(call *ssa.Call) (bool, string) {
 	return false, "result is not compared with nil"
 }
 
+// c14NamedResult: in functions with defer the results are named cells and a return loads them;
+// resolve such a load to the value last stored on the way from arm to block b.
+func c14NamedResult(res ssa.Value, b, arm *ssa.BasicBlock) ssa.Value {
+	ld, ok := c14Strip(res).(*ssa.UnOp)
+	if !ok || ld.Op != token.MUL {
+		return res
+	}
+	cell, ok := ld.X.(*ssa.Alloc)
+	if !ok {
+		return res
+	}
+	for blk := b; blk != nil; blk = blk.Idom() {
+		for i := len(blk.Instrs) - 1; i >= 0; i-- {
+			if st, ok := blk.Instrs[i].(*ssa.Store); ok && st.Addr == ssa.Value(cell) {
+				return st.Val
+			}
+		}
+		if blk == arm {
+			break
+		}
+	}
+	return res
+}
+
 // c14ArmFails: every path from arm ends in a return of an error value (or a non-nil error
 // result) or never returns (Fatalf/panic); from is the branching block (a path back to it
 // through a loop is cut there).
@@ -878,7 +905,7 @@ func c14ArmFails(arm, from *ssa.BasicBlock) (bool, string) {
 		}
 		if ret, ok := b.Instrs[len(b.Instrs)-1].(*ssa.Return); ok {
 			for _, res := range ret.Results {
-				v := c14Strip(res)
+				v := c14Strip(c14NamedResult(res, b, arm))
 				if c, isC := v.(*ssa.Const); isC && c.IsNil() {
 					continue
 				}
@@ -926,7 +953,7 @@ func c14ErrInteresting(c ssa.CallInstruction, local map[*ssa.Function]bool) bool
 }
 
 func c14Err(cx *c14Ctx) {
-	ru := cx.r.Rule("C14.err", "in every conversion function and text decoder each error result of a codec / bit-reader / io.Copy call is tested and its non-nil arm returns an error value or does not return (d.Fatalf), or the error itself is returned: malformed input yields an error, not a value; the json decoder completes only with a flag that is set on io.EOF alone", 37)
+	ru := cx.r.Rule("C14.err", "in every conversion function and text decoder each error result of a codec / bit-reader / io.Copy call is tested and its non-nil arm returns an error value or does not return (d.Fatalf), or the error itself is returned: malformed input yields an error, not a value; the json decoder completes only with a flag that is set on io.EOF alone, after a decode error other than io.EOF it cannot return normally in any mode, and element 0 is taken only where len == 1 was established; the xml trailing-token type switch has a failing default arm", 40)
 	p := cx.p
 	for _, row := range c14Rows {
 		root := cx.root(row)
@@ -973,6 +1000,8 @@ func c14Err(cx *c14Ctx) {
 		}
 	}
 	c14JSONEOF(cx, ru)
+	c14JSONPaths(cx, ru)
+	c14XMLTrailing(cx, ru)
 }
 
 // c14ErrHandled decides the obligation for one error value.
